@@ -30,7 +30,10 @@ Record gcase := GC {
   g_cb_same : list bool;
   (* (callback, action) that was executing when a message was published on a connection object
      other than the one the service is currently served on (restart cases) *)
-  g_stale : list (N * N) }.
+  g_stale : list (N * N);
+  (* 'returned' markers: (callback, action, n) - when the event method of that script action
+     returned (or panicked), n listener calls of that event had been made *)
+  g_returned : list (N * N * N) }.
 
 (* ---- the model's log with the same tags ---- *)
 Fixpoint tag_script (cx : ctx) (ty : rtype) (rid : bytes) (ls : list lst) (replied : bool) (i : N)
@@ -217,6 +220,25 @@ Fixpoint delivered (log : list entry) : list evrec :=
   | (_, _, _, _, EListen _ ev) :: r => ev :: delivered r
   | _ :: r => delivered r
   end.
+(* every listener of an event HAS RUN when the event method returns: the marker counts all the
+   listener entries the log holds for that call, and, if the event was published, at least the
+   listeners that have to be called *)
+Definition returned_ok (cbs : list callback) (log : list entry) (m : N * N * N) : bool :=
+  let '(c, a, n) := m in
+  match nth_error cbs (N.to_nat c) with
+  | None => false
+  | Some cb =>
+    match nth_error (cb_script cb) (N.to_nat a) with
+    | None => false
+    | Some act =>
+      if negb (is_event act) then true else
+      let full := sel_full c a log in
+      let outer := at_depth 0 full in
+      let '(ids, _, _) := walk (cb_ty cb) (cb_rid cb) (map l_id (cb_ls cb)) outer full (cb_ls cb) in
+      (n =? N.of_nat (length (lids outer))) &&
+      (if existsb is_pub outer then N.of_nat (length ids) <=? n else true)
+    end
+  end.
 Fixpoint dedup (l : list N) : list N :=
   match l with
   | [] => []
@@ -233,6 +255,8 @@ Fixpoint dedup (l : list N) : list N :=
    12 the effects of a re-entrant listener's event are not nested inside that listener's call
    14 a Timeout / OK / ReaccessEvent / ResetEvent call did not put exactly its one message on the
       connection at its position (e.g. a Timeout(d) pre-response missing, whatever d was before)
+   15 a listener of an event had not run when the event method returned (the 'returned' marker
+      counted fewer listener calls than the event's listeners / than the log finally holds)
    13 a message of the current serve cycle was published on another connection object than the one
       the service is served on (so it does not appear on the connection; also shows as 9 / M1) *)
 Definition viol_case (c : gcase) : list N :=
@@ -241,7 +265,8 @@ Definition viol_case (c : gcase) : list N :=
          (if tags_sorted 0 0 (g_log c) && forallb (in_range (gc_cbs c)) (g_log c) then [] else [6]) ++
          (if list_eqb evrec_eqb (delivered (g_log c)) (g_reread c) && forallb (fun b : bool => b) (g_cb_same c)
           then [] else [11]) ++
-         (if is_nil (g_stale c) then [] else [13])).
+         (if is_nil (g_stale c) then [] else [13]) ++
+         (if forallb (returned_ok (gc_cbs c) (g_log c)) (g_returned c) then [] else [15])).
 
 Fixpoint run_idx {A} (f : A -> list N) (i : N) (cs : list A) : list (N * N) :=
   match cs with
